@@ -108,6 +108,7 @@ theorem step_obs (s : St) (op : Op) :
   | lead m => right; simp only [step]; split <;> exact ⟨rfl, rfl⟩
   | expire m => right; exact ⟨rfl, rfl⟩
   | resign => right; exact ⟨rfl, rfl⟩
+  | dropKey => right; exact ⟨rfl, rfl⟩
   | update m now f =>
     right; simp only [step]
     split
